@@ -57,6 +57,18 @@ CHECKS = {
         design="DESIGN.md 5 (C07)",
         technique="TLA+ spec + TLC; spec->code replay in ego and map renderings + direct differential comparison",
     ),
+    "C09": dict(
+        engine="tla-heading",
+        text="Heading.tla defines the minimal yaw difference D on an angle grid Z/M, the APH weight (M/2 - D)/(M/2) and the admissible signed yaw "
+        "errors. TLC checks symmetry, 1 for equal / 0 for opposite headings, invariance under a common rotation and the range for all 24^3 "
+        "(estimate, ground truth, rotation) triples on the 15-degree grid; every triple is realised as real objects in base_link and in map (ego yaw "
+        "= the rotation), with all quaternion sign combinations, and TPMetricsAph.get_value (both argument orders), Ap.tp_list with TPMetricsAph "
+        "and heading_error are compared exactly; random yaws with small roll/pitch and random ego poses are validated as traces by TLC in 0.1 mrad "
+        "fixed point.",
+        note="exact on the 15-degree grid; continuous yaws within 1.3e-4 (weight) / 0.4 mrad (error); tilt uses pyquaternion's yaw_pitch_roll convention",
+        design="DESIGN.md 5 (C09)",
+        technique="TLA+ spec + TLC exhaustive; spec->code replay of every state; code->spec trace validation",
+    ),
     "C10": dict(
         engine="tla-filter",
         text="Filter.tla specifies _is_target_object / filter_objects / filter_object_results with the documented relaxations. TLC enumerates every "
